@@ -101,7 +101,7 @@ theorem exitFarm_locked_spec {s s' : St} {farm f x farming : Nat} {rew : Option 
       (o.burned.2 ≠ 0 → o.burned.1 = r.pn) ∧
       o.eDed = ((x - farming : Nat) : Int) * ((s.unl r.pn : Int) - (s.now : Int)) ∧
       o.base = 0 ∧ o.wOut = (0, 0) ∧
-      s'.minted = s.minted ∧ s'.burnB = s.burnB + (if farmIsBase farm = true then farming else 0) ∧
+      s'.minted = s.minted ∧ s'.burnB = s.burnB + (if farmIsBase r.farm = true then farming else 0) ∧
       s'.burnL = s.burnL + (x - farming) ∧ s'.eDed = s.eDed + o.eDed ∧
       s'.lk r.pn + p = s.lk r.pn := by
   simp only [exitFarm, Option.bind_eq_bind, Option.bind_eq_some_iff, req_eq_some,
@@ -142,6 +142,80 @@ theorem exitFarm_locked_spec {s s' : St} {farm f x farming : Nat} {rew : Option 
     · cases rew <;> (simp only [learnOpt, learn, burnLocked]; split <;> simp [hbl])
     · cases rew <;> (simp only [learnOpt, learn, burnLocked, energyOf]; split <;> simp [hed, hunl, hnow])
     · apply key; simp only [burnLocked]; split <;> rfl
+
+/-- `exitFarmProxy` of a position entered with wrapped LP tokens: without penalty the wrapped LP
+    part comes back as it is; with a penalty it is replaced by a NEW wrapped LP token over the
+    remaining amount that records the same locked nonce and the pro-rata locked amount of the
+    remainder, the difference being burned as locked tokens (with the energy deduction) -/
+theorem exitFarm_wlp_spec {s s' : St} {farm f x farming : Nat} {rew : Option LkTok} {o : Out}
+    {r : WFarm} (h : exitFarm s farm f x farming rew = some (s', o)) (hr : s.wf[f]? = some r)
+    (hk : r.kind = .wlp) :
+    ∃ p rw, part r.pa r.fa x = some p ∧ s.wl[r.pn]? = some rw ∧ farming ≤ x ∧
+      o.locked = (0, 0) ∧ o.base = 0 ∧
+      (x = farming → o.wOut = (r.pn, p) ∧ o.burned = (0, 0) ∧ o.eDed = 0) ∧
+      (x ≠ farming → ∃ qO qN, part rw.locked rw.total p = some qO ∧ x - farming ≤ p ∧
+          part rw.locked rw.total (p - (x - farming)) = some qN ∧ qN ≤ qO ∧
+          o.wOut = (s.wl.length, p - (x - farming)) ∧ o.burned.2 = qO - qN ∧
+          (o.burned.2 ≠ 0 → o.burned.1 = rw.k) ∧
+          o.eDed = ((qO - qN : Nat) : Int) * ((s.unl rw.k : Int) - (s.now : Int)) ∧
+          s'.wl[s.wl.length]? = some ⟨p - (x - farming), rw.k, qN, p - (x - farming), 0, 0, qN⟩) := by
+  simp only [exitFarm, takeF, Option.bind_eq_bind, Option.bind_eq_some_iff, req_eq_some,
+    Option.pure_def, Option.some.injEq, Prod.mk.injEq] at h
+  obtain ⟨_, hfx, ⟨s1, t⟩, ⟨⟨s0, r0, p⟩, h0, ⟨s2, k, q⟩, hs, rfl, rfl⟩, h⟩ := h
+  dsimp only at hs h
+  obtain ⟨hr0, _, _, hp, _, _, _, hs0⟩ := takeF0_spec h0
+  rw [hr] at hr0
+  simp only [Option.some.injEq] at hr0
+  subst hr0
+  have hwl0 : s0.wl = s.wl := by rw [hs0]; rfl
+  have hunl0 : s0.unl = s.unl ∧ s0.now = s.now := by rw [hs0]; exact ⟨rfl, rfl⟩
+  split at h
+  · rename_i hxf
+    rw [if_pos hxf] at hs
+    obtain ⟨rw, hrw, _, _, _, _⟩ := settle_wlp_out hk hs
+    rw [hwl0] at hrw
+    rw [hk] at h
+    simp only [Option.some.injEq, Prod.mk.injEq] at h
+    obtain ⟨_, rfl⟩ := h
+    exact ⟨p, rw, hp, hrw, hfx, rfl, rfl, fun _ => ⟨rfl, rfl, rfl⟩, fun h' => absurd hxf h'⟩
+  · rename_i hxf
+    rw [if_neg hxf] at hs
+    obtain ⟨rw, hrw, _, hq, _, _, rfl, hs2⟩ := settle_wlp_dissolve hk hs
+    rw [hwl0] at hrw
+    simp only [Option.bind_eq_bind, Option.bind_eq_some_iff, sub?_eq_some] at h
+    obtain ⟨remaining, ⟨hpen, rfl⟩, h⟩ := h
+    rw [hk] at h
+    simp only [Option.bind_eq_bind, Option.bind_eq_some_iff, sub?_eq_some, Option.pure_def,
+      Option.some.injEq, Prod.mk.injEq] at h
+    obtain ⟨rw', hrw', qN, hqN, extra, ⟨hle, rfl⟩, rfl, rfl⟩ := h
+    rw [hrw] at hrw'
+    simp only [Option.some.injEq] at hrw'
+    subst hrw'
+    refine ⟨p, rw, hp, hrw, hfx, rfl, rfl, fun h' => absurd h' hxf, fun _ => ?_⟩
+    have hlen : s2.wl.length = s.wl.length := by
+      rw [hs2]; simp only [setW, List.length_set]; rw [hwl0]
+    refine ⟨q, qN, hq, hpen, hqN, hle, ?_, rfl, fun _ => rfl, ?_, ?_⟩
+    · show ((newW _ _ _ _ _).2, _) = _
+      simp only [newW]
+      congr 1
+      split <;> (split <;> simp only [burnLocked, hlen])
+    · have hu : s2.unl = s.unl ∧ s2.now = s.now := by
+        rw [hs2]; exact ⟨hunl0.1, hunl0.2⟩
+      by_cases he : q - qN = 0
+      · simp only [he, if_true]; simp
+      · simp only [he, if_false, energyOf]
+        split <;> simp [hu.1, hu.2]
+    · have : ∀ (sa : St), sa.wl = s2.wl →
+          (learnOpt (newW sa (p - (x - farming)) rw.k qN true).1 rew).wl[s.wl.length]? =
+            some ⟨p - (x - farming), rw.k, qN, p - (x - farming), 0, 0, qN⟩ := by
+        intro sa hsa
+        have e : (learnOpt (newW sa (p - (x - farming)) rw.k qN true).1 rew).wl
+            = sa.wl ++ [⟨p - (x - farming), rw.k, qN, p - (x - farming), 0, 0, qN⟩] := by
+          cases rew <;> simp [learnOpt, learn, newW]
+        rw [e, hsa, ← hlen]
+        simp [List.getElem?_append_right (Nat.le_refl _)]
+      apply this
+      split <;> (split <;> simp only [burnLocked])
 
 /-- `addLiquidityProxy` without merging -/
 theorem addLiq_plain_spec {s s' : St} {k la oa lp ul uo : Nat} {mk : Option LkTok} {o : Out}
